@@ -991,3 +991,137 @@ func ruleGenIndexCmp(c *Ctx, r *Rep) {
 		r.Undecided("census", token.NoPos, "no comparison of an Index* result with a constant found")
 	}
 }
+
+func init() {
+	reg(&Rule{ID: "R-C16-bufalias", Props: []string{"C16"}, Floor: 1,
+		Doc: "input readers use only copying read APIs: no bufio ReadSlice/ReadLine/Peek or Scanner.Bytes result (which aliases the reader's buffer and is overwritten by the next read) is retained",
+		Run: ruleC16BufAlias})
+	reg(&Rule{ID: "R-C17-eoftoken", Props: []string{"C17", "C09"}, Floor: 2,
+		Doc: "every end-of-input exit of (*lexer).Lex clears l.token first, so ParseError.Token/Offset of an unexpected-EOF error point at the end of the source",
+		Run: ruleC17EOFToken})
+}
+
+func ruleC16BufAlias(c *Ctx, r *Rep) {
+	n := 0
+	for _, p := range []*packages.Package{c.Cli, c.Gojq} {
+		info := p.TypesInfo
+		for _, fd := range c.Decls(p) {
+			if c.PhysFile(fd.Pos()) == "parser.go" {
+				continue
+			}
+			ast.Inspect(fd.Body, func(m ast.Node) bool {
+				call, ok := m.(*ast.CallExpr)
+				if !ok {
+					return true
+				}
+				nm := calleeName(info, call)
+				if !strings.HasPrefix(nm, "bufio.") {
+					return true
+				}
+				n++
+				switch nm {
+				case "bufio.Reader.ReadSlice", "bufio.Reader.ReadLine", "bufio.Reader.Peek", "bufio.Scanner.Bytes":
+					// the aliasing result may be used until the next call on the same reader; a use after that is the hazard
+					var resObj, recvObj types.Object
+					if sel, ok := call.Fun.(*ast.SelectorExpr); ok {
+						recvObj = rootObjOf(info, sel.X)
+					}
+					ast.Inspect(fd.Body, func(q ast.Node) bool {
+						if as, ok := q.(*ast.AssignStmt); ok && len(as.Rhs) == 1 && unparen(as.Rhs[0]) == ast.Expr(call) {
+							if id, ok := as.Lhs[0].(*ast.Ident); ok {
+								resObj = info.ObjectOf(id)
+							}
+						}
+						return true
+					})
+					var nextRead token.Pos
+					ast.Inspect(fd.Body, func(q ast.Node) bool {
+						if c2, ok := q.(*ast.CallExpr); ok && c2.Pos() > call.End() && !nextRead.IsValid() {
+							if sel, ok := c2.Fun.(*ast.SelectorExpr); ok && recvObj != nil && rootObjOf(info, sel.X) == recvObj {
+								nextRead = c2.Pos()
+							}
+						}
+						return true
+					})
+					usedAfter := false
+					if resObj != nil && nextRead.IsValid() {
+						ast.Inspect(fd.Body, func(q ast.Node) bool {
+							if id, ok := q.(*ast.Ident); ok && info.Uses[id] == resObj && id.Pos() > nextRead {
+								usedAfter = true
+							}
+							return true
+						})
+					}
+					if resObj != nil && !usedAfter {
+						r.OK(p.Name+"."+declKey(fd)+":"+nm, call.Pos(), "%s result is not used after the next read on the same reader", nm)
+						return true
+					}
+					r.Bad(p.Name+"."+declKey(fd)+":"+nm, call.Pos(), "%s in %s.%s returns a slice of the reader's internal buffer; it is overwritten by the next read (a long -R line assembled from such a slice and a later fill has its beginning replaced by later input)", nm, p.Name, declKey(fd))
+				default:
+					r.OK(p.Name+"."+declKey(fd)+":"+nm, call.Pos(), "%s copies", nm)
+				}
+				return true
+			})
+		}
+	}
+	if n == 0 {
+		r.Undecided("census", token.NoPos, "no bufio use found in cli/gojq")
+	}
+}
+
+func ruleC17EOFToken(c *Ctx, r *Rep) {
+	info := c.Gojq.TypesInfo
+	fd := c.Decl(c.Gojq, "lexer.Lex")
+	if fd == nil {
+		r.Undecided("lexer.Lex", token.NoPos, "not found")
+		return
+	}
+	n := 0
+	ast.Inspect(fd.Body, func(m ast.Node) bool {
+		rs, ok := m.(*ast.ReturnStmt)
+		if !ok || len(rs.Results) != 1 {
+			return true
+		}
+		id, ok := unparen(rs.Results[0]).(*ast.Ident)
+		if !ok || id.Name != "eof" {
+			return true
+		}
+		if _, isConst := info.Uses[id].(*types.Const); !isConst {
+			return true
+		}
+		n++
+		list, idx := stmtListOf(fd.Body, rs)
+		cleared := false
+		if idx > 0 {
+			if as, ok := list[idx-1].(*ast.AssignStmt); ok && len(as.Lhs) == 1 && len(as.Rhs) == 1 {
+				if sel, ok := as.Lhs[0].(*ast.SelectorExpr); ok && sel.Sel.Name == "token" && isNamed(info.TypeOf(sel.X), pathGojq, "lexer") {
+					if s, ok := constString(info, as.Rhs[0]); ok && s == "" {
+						cleared = true
+					}
+				}
+			}
+		}
+		r.Check(cleared, "Lex:return eof", rs.Pos(), "this end-of-input exit of Lex clears l.token immediately before returning eof: %v (its siblings do; a stale token makes the unexpected-EOF error name, and the caret point at, an unrelated earlier token)", cleared)
+		return true
+	})
+	if n < 2 {
+		r.Undecided("Lex", fd.Pos(), "expected at least two `return eof` exits in Lex, found %d", n)
+	}
+}
+
+func rootObjOf(info *types.Info, e ast.Expr) types.Object {
+	for {
+		switch x := unparen(e).(type) {
+		case *ast.Ident:
+			return info.ObjectOf(x)
+		case *ast.SelectorExpr:
+			// i.r → the field object distinguishes readers held in different fields
+			if o := info.ObjectOf(x.Sel); o != nil {
+				return o
+			}
+			e = x.X
+		default:
+			return nil
+		}
+	}
+}
